@@ -35,6 +35,9 @@ func runC15(idx int, rng *rand.Rand, tier string) []Case {
 	}
 	var stamp int64
 	tick := func() int64 { return atomic.AddInt64(&stamp, 1) }
+	if kind == 2 && idx == 2 && tier == "thorough" {
+		return c15LongRun()
+	}
 	if kind == 2 {
 		// static targeter: n draws over k targets
 		k := 1 + rng.Intn(7)
@@ -87,6 +90,9 @@ func runC15(idx int, rng *rand.Rand, tier string) []Case {
 		for i := 0; i < n; i++ {
 			t := vegeta.Target{Method: "POST", URL: "http://t.example/" + strconv.Itoa(i), Header: http.Header{"X-Id": {strconv.Itoa(i)}}, Body: []byte(strconv.Itoa(i))}
 			enc.Encode(&t)
+			if i%37 == 5 { // blank lines between targets are skipped by the reader
+				src.WriteString([]string{"\n", "  \n", "\t\n"}[i%3])
+			}
 		}
 	} else {
 		for i := 0; i < n; i++ {
@@ -291,5 +297,60 @@ func c15Attack(idx int, rng *rand.Rand) []Case {
 	c.Tag = "attack." + format + ";nt"
 	c.Dist = fmt.Sprintf("attack/%s/workers%d/n%d", format, workers, sizeClass(n))
 	c.Sample = map[string]interface{}{"targeter": format, "workers": workers, "targets": n, "requests_seen": len(reqs), "own_header_lines": owned}
+	return []Case{c}
+}
+
+
+// a static targeter drawn more than 2^31 times (a long soak): the rotation must simply go on
+func c15LongRun() []Case {
+	k := 3
+	tgts := make([]vegeta.Target, k)
+	for i := range tgts {
+		tgts[i] = vegeta.Target{Method: "GET", URL: "http://s.example/" + strconv.Itoa(i)}
+	}
+	tr := vegeta.NewStaticTargeter(tgts...)
+	const pre = int64(1)<<31 - 40
+	bad := false
+	func() {
+		defer func() {
+			if recover() != nil {
+				bad = true
+			}
+		}()
+		var t vegeta.Target
+		for i := int64(0); i < pre; i++ {
+			tr(&t)
+		}
+	}()
+	var draws []int64
+	for i := 0; i < 120 && !bad; i++ {
+		func() {
+			defer func() {
+				if recover() != nil {
+					bad = true
+				}
+			}()
+			var t vegeta.Target
+			if err := tr(&t); err != nil {
+				draws = append(draws, -1)
+				return
+			}
+			id, _ := strconv.ParseInt(strings.TrimPrefix(t.URL, "http://s.example/"), 10, 64)
+			draws = append(draws, id)
+		}()
+	}
+	if bad {
+		draws = append(draws, -1) // the targeter panicked: no target
+	}
+	var c Case
+	w := &c.W
+	w.Z(2)
+	w.I(k)
+	w.Zs(draws)
+	w.Bool(false)
+	w.Bool(true)
+	c.Tag = "static.long;nt"
+	c.Dist = "static/after 2^31-40 draws"
+	c.Sample = map[string]interface{}{"targeter": "static", "draws_before": pre, "draws_observed": len(draws)}
 	return []Case{c}
 }
